@@ -31,6 +31,11 @@ THEOREMS = [
     "Inventory.xref_internal_first", "Inventory.xref_external_order", "Inventory.xref_external_is_getLink",
     "Inventory.linkTo_order", "Inventory.xref_roundtrip", "Inventory.role_table", "Inventory.role_is_sphinx_type",
     "Inventory.role_never_obj", "Inventory.DocKind.all_complete",
+    # review items: behaviour at the edges and the proposed fixes
+    "Inventory.collapseAux_no_nl", "Inventory.file_roundtrip_collapsed", "Inventory.split_ws_reads_like_sphinx",
+    "Inventory.pySplitWs_join", "Inventory.splitters_agree",
+    # historical, about the code before 2626e70 (generateFileOld) and 96f18c4 (parseLineSp)
+    "Inventory.old_header_newline_counterexample", "Inventory.old_double_space_wrong_key", "Inventory.old_tab_separated_rejected",
     # historical, about the parser before /repo commit f721ca9 (parsePartsOld)
     "Inventory.old_indexError_iff", "Inventory.old_parse_total_counterexample", "Inventory.old_agrees",
     "Inventory.old_good_lines_survive_counterexample",
@@ -41,7 +46,7 @@ PARTIAL: dict = {
                                             "before any inventory is loaded and are outside the wording of C17. A missing cache directory is "
                                             "covered since /repo f96af79 (prepareCache_missing_dir; prepareCache_counterexample is historical)",
 }
-RULE = ("(a) exhaustive: every line of <=6 space-separated tokens over {a, 1, -1, py:x, std:y, -, ''} through the real "
+RULE = ("(a) exhaustive: every line of <=6 tokens joined by single spaces (empty tokens give runs of spaces) over {a, 1, -1, py:x, std:y, -, ''} through the real "
         "_parseInventoryLine and _parseInventory and through the Lean model, plus random lines over a wider token alphabet "
         "(signs, underscores, whitespace, 4300/4301-digit numbers, non-ASCII, every str.splitlines separator); non-trivial = the "
         "priority scan succeeds (some token at index >=2 is an int), so the line is not rejected at the first step and the "
@@ -91,6 +96,10 @@ EXPLANATION = ("Theorems over the model of sphinx.py hold for every object tree 
 BASE = "http://h/doc"
 URL = BASE + "/objects.inv"
 SIG_PRIO_LAST = "parse-line:IndexError:prio-last"
+SIG_SEPARATOR = "reader:repeated-separator:neither-resolved-nor-reported"
+SIG_HEADER_NL = "header:newline-in-project-name"
+SIG_PAGE_FILE = "location-decodes-to-missing-file:non-ascii"
+SIG_REPORT_ENC = "report-aborts:UnicodeEncodeError:ascii-stdout"
 
 
 # ------------------------------------------------------------------ helpers
@@ -114,8 +123,8 @@ def hexb(b: bytes) -> str:
 
 
 def int_model_ok(s: str) -> bool:
-    """the model's `pyInt` covers this string (no non-ASCII decimal digit / whitespace in any token)"""
-    return not any(ord(c) > 127 and (c.isdecimal() or c.isspace()) for c in s) and not any(0xD800 <= ord(c) <= 0xDFFF for c in s)
+    """the model's `pyInt` covers this string (no non-ASCII decimal digit; whitespace never reaches int() since line.split())"""
+    return not any(ord(c) > 127 and c.isdecimal() for c in s) and not any(0xD800 <= ord(c) <= 0xDFFF for c in s)
 
 
 def is_int(tok: str) -> bool:
@@ -128,7 +137,7 @@ def is_int(tok: str) -> bool:
 
 def prio_is_last(line: str) -> bool:
     """independent description of the defect's trigger: first int-like column at index >= 2 is the last column"""
-    parts = line.split(' ')
+    parts = line.split()
     for i in range(2, len(parts)):
         if is_int(parts[i]):
             return i == len(parts) - 1
@@ -321,7 +330,7 @@ def stream_lines(ctx: Ctx) -> None:
         lines.append(" ".join(ctx.rng.choice(WIDE if ctx.rng.random() < 0.6 else ALPHA) for _ in range(n)))
     seen_sample = 0
     for k, line in enumerate(lines):
-        parts = line.split(' ')
+        parts = line.split()
         nontriv = any(is_int(p) for p in parts[2:])
         a = impl_line(line)
         b, exc = impl_parse(BASE, line)
@@ -697,7 +706,7 @@ def mutate_line(rng, i: int) -> Tuple[str, str]:
     cols = [name, "py:function", "-1", f"zz{i}.html", "-"]
     kind = rng.choice(["drop-col", "dup-col", "bad-prio", "non-py", "space-name", "empty-display", "prio-last", "empty-line",
                        "junk", "int-name", "two-prio", "only-name", "tabs", "empty-location", "dollar-only", "lead-space",
-                       "pct-junk", "pct-truncated", "pct-columns"])
+                       "pct-junk", "pct-truncated", "pct-columns", "sep-double-space", "sep-tab", "sep-mixed"])
     if kind == "drop-col":
         j = rng.randrange(5)
         cols = cols[:j] + cols[j + 1:]
@@ -732,6 +741,9 @@ def mutate_line(rng, i: int) -> Tuple[str, str]:
         cols[3] = "$"
     elif kind == "lead-space":
         cols = [""] + cols
+    elif kind.startswith("sep-"):   # a well-formed line, columns separated by more / other whitespace (Sphinx separates with \s+)
+        seps = {"sep-double-space": ["  "], "sep-tab": ["\t"], "sep-mixed": ["  ", "\t", " \t", "   "]}[kind]
+        return kind, "".join(c + (rng.choice(seps) if j < 4 else "") for j, c in enumerate(cols))
     elif kind == "pct-junk":      # malformed lines holding format-string metacharacters
         cols = [rng.choice(['<td width="50%">404 Not Found</td>', "discount 100%", "%", "%s %s %s", "%(line)s", "{} {0} {x}",
                             "100%% sure", "%d items py:x", "caf%C3%A9", "%n%n%n%n", "{", "}{"])]
@@ -756,7 +768,7 @@ def stream_robust(ctx: Ctx) -> None:
                  "pkg.mod.attr": "pkg.mod.html#attr", "pkg.dollar": "api/pkg.dollar",
                  "pkg.caf%C3%A9": "pkg.html#caf%C3%A9", "pkg.%(fmt)s": "a%sb/{0}.html#%%"}
 
-    def one(kind: str, updates, label, n_mut: int = 0, expect_good: bool = False) -> None:
+    def one(kind: str, updates, label, n_mut: int = 0, expect_good: bool = False) -> Any:
         sreq, simpl, excs, inv = run_session(updates, good_names + ["zz0.obj", "nope"])
         if sreq is not None:
             reqs.append(sreq)
@@ -797,6 +809,7 @@ def stream_robust(ctx: Ctx) -> None:
                 lines = zlib.decompress(strip_comments_py(updates[-1][1])).decode("utf-8").splitlines()
                 sig = SIG_PRIO_LAST if any(prio_is_last(l) for l in lines) and excs else "good-line-lost"
                 ctx.fail(sig, label, f"well-formed lines no longer resolve next to malformed ones: {bad[:3]}")
+        return inv
 
     # 1. every truncation of a valid inventory (and of one without header)
     step = 1
@@ -855,7 +868,16 @@ def stream_robust(ctx: Ctx) -> None:
         data = header + zlib.compress(t.encode("utf-8"))
         for kd in kinds:
             ctx.count("mutation:" + kd)
-        one("line-mutation", [(URL, data)], {"session": [[URL, data.hex()]], "mutations": kinds, "text": t}, n_mut=len(kinds), expect_good=True)
+        lab = {"session": [[URL, data.hex()]], "mutations": kinds, "text": t}
+        inv = one("line-mutation", [(URL, data)], lab, n_mut=len(kinds), expect_good=True)
+        # direct oracle 3: a line that differs from a well-formed one only in the whitespace between its columns is used
+        # (its name resolves) or reported (a message quotes it) — never silently stored under another key
+        if inv is not None and not any(prio_is_last(l) for l in t.splitlines()):
+            for i, kd in enumerate(kinds):
+                if kd.startswith("sep-") and inv.getLink(f"zz{i}.obj") != f"{BASE}/zz{i}.html":
+                    if not any(f"zz{i}.obj" in m for _, m, _ in inv._c17_log):
+                        ctx.fail(SIG_SEPARATOR, lab, f"the line of zz{i}.obj ({kd}) is neither resolved nor reported; keys: {[k for k in inv._links if 'zz' in k]}")
+                        break
     compare(ctx, "robustness", reqs, impls, pay)
 
 
@@ -1053,6 +1075,85 @@ def stream_corpus(ctx: Ctx) -> None:
     check_project(ctx, system, {"corpus": "non-ascii-identifiers", "modules": [list(m) for m in mods], "hidden": []}, reqs, impls, pay)
     ctx.count("corpus:non-ascii-project")
     compare(ctx, "corpus", reqs, impls, pay)
+    corpus_review_items(ctx)
+
+
+def corpus_review_items(ctx: Ctx) -> None:
+    """round-3 review: shapes reproduced by hand on the unchanged tree, each with the property's own oracle"""
+    import contextlib
+    import os
+    import shutil
+    import sys
+    import tempfile
+    from urllib.parse import unquote
+    from pydoctor import driver, model, sphinx
+    # (1) a line break in the project name / version: the inventory pydoctor writes must read back
+    system = build_system([("def f():\n    pass\n", "m", None, False)], [])
+    exp, _ = expected_entries(system)
+    for tag, pj, ver in [("name", "My\nProject", "1.0"), ("version", "proj", "1\n2"), ("control-tab", "My\tProject", "1 0")]:
+        data, exc, _ = write_inventory(system.rootobjects, project=pj, version=ver)
+        _, _, excs, inv = run_session([(URL, data)], list(exp))
+        flat, serr = sphinx_load(data, BASE)
+        ok_pd = dict(inv._links) == {k: (BASE, v) for k, v in exp.items()}
+        ok_sx = flat == {k: [f"{BASE}/{v}"] for k, v in exp.items()}
+        ctx.case("corpus header-" + tag, True)
+        ctx.count("corpus:header-newline-" + tag)
+        if not (ok_pd and ok_sx):
+            ctx.fail(SIG_HEADER_NL if "\n" in pj + ver else "header-unreadable", {"project": pj, "version": ver, "file": data.hex()},
+                     f"objects.inv written with project name {pj!r} / version {ver!r} does not read back: pydoctor reader "
+                     f"{'ok' if ok_pd else 'got ' + str(len(inv._links)) + ' entries'}, Sphinx {'ok' if ok_sx else (serr or 'wrong entries')}")
+    # (4) the reviewer's line: two spaces between the first two columns
+    text = "a.first py:function 1 a.html#first -\na.good  py:function 1 a.html#good -\na.tab\tpy:function\t1\ta.html#tab\t-\n"
+    data = SEQ_HEADER + zlib.compress(text.encode())
+    req, impl, excs, inv, _ = run_steps([("U", URL, data), ("Q", "a.good"), ("Q", "a.tab")])
+    ctx.case("corpus separators", True)
+    ctx.count("corpus:separators")
+    for n in ("a.good", "a.tab"):
+        if inv.getLink(n) != f"{BASE}/a.html#{n[2:]}" and not any(n in m for _, m, _ in inv._c17_log):
+            ctx.fail(SIG_SEPARATOR, {"steps": [["U", URL, data.hex()], ["Q", n]]},
+                     f"the line of {n} is neither resolved nor reported; keys: {list(inv._links)}")
+    # (6) reporting a malformed remote line on an ASCII console must not abort the load
+    system = model.System()
+    data = SEQ_HEADER + zlib.compress("good py:function 1 g.html -\ncaf\u00e9 broken line\n".encode())
+    old_stdout = sys.stdout
+    sys.stdout = io.TextIOWrapper(io.BytesIO(), encoding="ascii")
+    try:
+        try:
+            system.intersphinx.update(Cache(data), URL)
+            r = None
+        except Exception as e:
+            r = type(e).__name__
+    finally:
+        sys.stdout = old_stdout
+    ctx.case("corpus ascii-console", True)
+    ctx.count("corpus:ascii-console")
+    if r is not None or system.intersphinx.getLink("good") != BASE + "/g.html":
+        ctx.fail(SIG_REPORT_ENC if r == "UnicodeEncodeError" else "report-aborts:" + str(r), {"steps": [["U", URL, data.hex()]], "stdout_encoding": "ascii"},
+                 f"System.msg raised {r} while reporting a malformed line of a remote inventory on an ASCII console: the load aborts, 'good' -> {system.intersphinx.getLink('good')!r}")
+    # (5) every location of the written inventory names, after URL decoding, a file that was written
+    tmp = tempfile.mkdtemp(prefix="c17html")
+    try:
+        pk = os.path.join(tmp, "pk")
+        os.makedirs(pk)
+        with open(os.path.join(pk, "__init__.py"), "w", encoding="utf-8") as f:
+            f.write('"""p"""\n')
+        with open(os.path.join(pk, "caf\u00e9.py"), "w", encoding="utf-8") as f:
+            f.write('"""doc"""\nclass Gr\u00f6\u00dfe:\n    """c"""\n    def f(self):\n        """d"""\n')
+        out = os.path.join(tmp, "out")
+        with contextlib.redirect_stdout(io.StringIO()), contextlib.redirect_stderr(io.StringIO()):
+            rc = driver.main(["--html-output", out, "-q", "-q", pk])
+        with open(os.path.join(out, "objects.inv"), "rb") as f:
+            data = f.read()
+        _, _, _, inv = run_session([(URL, data)], [])
+        missing = sorted(n for n, (b, l) in inv._links.items() if not os.path.exists(os.path.join(out, unquote(l.split("#")[0]))))
+        ctx.case("corpus page-files", True)
+        ctx.count("corpus:page-files")
+        if missing or not inv._links:
+            ctx.fail(SIG_PAGE_FILE, {"package": "pk/caf\u00e9.py", "missing": missing},
+                     f"inventory locations that do not lead to a written page once the URL is decoded: {missing[:3]} "
+                     f"(the files are named with the percent-encoded text)")
+    finally:
+        shutil.rmtree(tmp, ignore_errors=True)
 
 
 # ------------------------------------------------------------------ stream (e): the cache in front of the reader
